@@ -79,7 +79,7 @@ def tokens(tier, rng):
             lit(16, "".join(c.upper() if i % 2 else c for i, c in enumerate(h)), "B", w, "_")
             lit(16, "0_0" + h, "U", w, "__")
         # invalid digits for the base
-        for bad in ("1a", "1A", "a", "A1", "1f", "9a9", "1_a"):
+        for bad in ("1a", "1A", "1f", "9a9", "1_a", "0a", "1aa"):
             lit(10, bad, "U", max(w, 8), "_")
         lit(8, "7a", "U", max(w, 8), "_")
         lit(2, "1a", "U", max(w, 8), "_")
@@ -175,7 +175,8 @@ def cargo_build(d):
             if sp.get("expansion"):
                 walk(sp["expansion"]["span"])
         for sp in m.get("spans", []):
-            walk(sp)
+            if sp.get("is_primary"):          # secondary spans (e.g. "similar name exists") point at innocent lines
+                walk(sp)
         if not got and "aborting due to" not in m.get("message", "") and "could not compile" not in m.get("message", ""):
             other_errors.append(m.get("message", "")[:200])
     return r.returncode, err_lines, other_errors, r.stderr[-2000:]
